@@ -503,12 +503,13 @@ def export_units(R, ctx, cfg, tag):
     done = []
 
     def on_event(I, st, e):
-        if e[0] == 'call' and e[1] in ('to_string', 'to_writer', 'to_vec', 'to_string_pretty') and not done:
+        # every path that reaches the serialiser must hand it un-equilibrated data
+        if e[0] == 'call' and e[1] in ('to_string', 'to_writer', 'to_vec', 'to_string_pretty'):
             done.append(1)
             for fld, want in (('P', M(ONE, ONE, ONE)), ('q', V(ONE)), ('A', M(ONE, ONE, ONE)), ('b', V(ONE))):
                 got = st.get('self.data.%s' % fld, DECL[('DefaultProblemData', fld)])
                 R.check(got == want, 'exported|%s%s' % (fld, tag),
-                        'the serialised %s still carries the scaling %s: the file would not describe the user\'s problem' % (fld, vfmt(got)), f.loc())
+                        'on some path the serialised %s still carries the scaling %s: the file would not describe the user\'s problem' % (fld, vfmt(got)), f.loc())
     I.run({}, on_event=on_event)
     R.check(bool(done), 'export-serialise-point' + tag, 'no serialisation point reached in save_to_file')
 
@@ -612,3 +613,32 @@ def premises(ctx, rep, rid):
         R = rep.rule(rid, 'units premises: equilibrate establishes P~d d c, A~e d, q~d c, b~e; every update form and the cached norms maintain them')
         R.guard(lambda: equilibrate_invariant(R, ctx, cfg, ''))
         R.guard(lambda: update_forms(R, ctx, cfg, ''))
+
+
+def add_step_units(R, ctx, cfg, tag):
+    """x, s, z, tau, kappa all move by alpha * step: give the step the unit (component unit)/A and alpha the unit A;
+    a missing or different factor makes the sum dimensionally inconsistent"""
+    F = ctx.facts(cfg)
+    f = F.one(name='add_step', adt='DefaultVariables')
+    I = mk(ctx, cfg, f)
+    A = {'ALPHA': Fraction(1)}
+    init = {'arg3': S(A)}
+    for v in ('x', 's', 'z'):
+        init['self.%s' % v] = V({v.upper(): Fraction(1)})
+        init['arg2.%s' % v] = V(umul({v.upper(): Fraction(1)}, A, 1, -1))
+    for v in ('τ', 'κ'):
+        init['self.%s' % v] = S({v: Fraction(1)})
+        init['arg2.%s' % v] = S(umul({v: Fraction(1)}, A, 1, -1))
+    rows = I.run(init)
+    R.check(len(rows) == 1, 'add_step-paths' + tag, '%d paths through add_step' % len(rows))
+    for fd in I.findings:
+        R.bad('add_step|%s%s' % (fd.key[:80], tag), 'add_step: a component is not advanced by alpha*step (%s)' % fd.msg[:160], f.loc())
+    # every component is touched
+    E = ctx.eff(cfg)
+    W = set()
+    for r, ch in E.W[f.key]:
+        if r == ('param', 1) and ch:
+            W.add(ch[0][1])
+    R.check({'x', 's', 'z', 'τ', 'κ'} <= W, 'add_step-all-components' + tag, 'add_step writes only %s' % sorted(W), f.loc())
+    if not I.findings:
+        R.ok('add_step-consistent' + tag)
